@@ -245,6 +245,7 @@ def run(ck):
     ck.gen_from_source()
     ok, _ = ck.coq_build(["props/C16.vo", "extract/C16_extract.vo"])
     ck.print_assumptions(["DSP.C16"], ["DSP.C16." + t for t in THEOREMS])
+    ck.source_tie("strings")
     ck.hygiene()
     ck.ocaml_build()
     ck.harness_build(["c16"])
